@@ -375,7 +375,7 @@ def clean_model(P, frames):
         a_.append(a)
         b_.append(b)
         app.append(ap)
-    return [(a_[k], b_[k], And(app[k], a_[k] < b_[k])) for k in range(n)]
+    return [(a_[k], b_[k], And(app[k], a_[k] < b_[k]), app[k]) for k in range(n)]
 
 
 class PrepExons(Case):
@@ -386,11 +386,15 @@ class PrepExons(Case):
     def __init__(self, n):
         self.n = n
         self.tier = "thorough" if n >= 3 else "quick"
+        if n >= 3:
+            self.shard_depth = 7  # ~4400 paths
         self.name = f"CDSInterval._prepare_multi_exon_window_for_scan_codon_locations[{n} exons, reference model]"
         self.call = "cds._prepare_multi_exon_window_for_scan_codon_locations(None, False)"
         # known finding F-C05-1: at a frameshift only the LAST kept block is trimmed; when the incomplete codon is
         # longer than that block its end moves before its start and the lift-over refuses the interval
-        over_trim = lambda i: Or(*[t[0] > t[1] for t in i.model])  # noqa
+        # (only a block that WAS kept can be over-trimmed: a block whose annotated offset already exceeds its length
+        # is skipped, not refused)
+        over_trim = lambda i: Or(*[And(t[3], t[0] > t[1]) for t in i.model])  # noqa
         self.known_raises = {"InvalidPositionException": "F-C05-1"}
         self.raises = {"InvalidPositionException": over_trim,
                        "ValueError": lambda i: And(Not(over_trim(i)), *[Not(t[2]) for t in i.model])}
@@ -418,7 +422,7 @@ class PrepExons(Case):
         P = [sum(lens[:k], 0) for k in range(n + 1)]
         model = clean_model(P, [val(f) for f in fr])
         expected = []
-        for k, (a, b, pres) in enumerate(model):
+        for k, (a, b, pres, _kept) in enumerate(model):
             t = order[k]
             if plus:
                 expected.append((starts[t] + (a - P[k]), starts[t] + (b - P[k]), pres))
@@ -791,3 +795,46 @@ class StartStopFlags(Case):
 _AA2 = {"ATG": "M", "TTG": "L", "AAA": "K", "TAA": "*"}
 _STARTS = {"DEFAULT": {"ATG"}, "PROKARYOTE": {"ATG", "TTG"}}
 CASES.append(StartStopFlags())
+
+
+class ExpandToCodons(Case):
+    """CDSInterval._expand_coordinates_to_codons (what scan_*_codon_locations(..., expand_window_to_partial_codons=True)
+    widens the window with): the smallest window of whole codons - counted from the 5' END of the CDS, on either
+    strand - that contains the part of the requested window lying on the CDS.  Complete domain: single-exon CDS of
+    length 9 / 10 / 11 (frame ZERO), both strands, every window [a, b) around it."""
+    props = ("C05",)
+    name = "CDSInterval._expand_coordinates_to_codons[single exon of length 9..11, both strands, all windows]"
+    func = CDS + "._expand_coordinates_to_codons"
+    module = "gene.cds"
+    call = "cds._expand_coordinates_to_codons(a, b)"
+    # known finding F-C05-3: when the CDS length is not a multiple of three and the window reaches into the trailing
+    # incomplete codon, the widened CDS interval runs past the end of the CDS and the conversion back raises
+    _tail = staticmethod(lambda i: (i.L % 3 != 0) and ((i.b2 > i.s + 3 * (i.L // 3)) if i.plus else (i.a2 < i.e - 3 * (i.L // 3))))
+    raises = {"LocationOverlapException": lambda i: not (i.a2 < i.b2),
+              "InvalidPositionException": lambda i: (i.a2 < i.b2) and ExpandToCodons._tail(i)}
+    known_raises = {"InvalidPositionException": "F-C05-3"}
+    ensures = {
+        "contains-the-window-part-on-the-cds": lambda i, r: r[0] <= i.a2 and i.b2 <= r[1],
+        "codon-boundaries-counted-from-the-5p-end": lambda i, r: (
+            ((r[0] - i.s) % 3 == 0 and (r[1] - i.s) % 3 == 0) if i.plus else ((i.e - r[1]) % 3 == 0 and (i.e - r[0]) % 3 == 0)),
+        "smallest-such-window": lambda i, r: r[0] > i.a2 - 3 and r[1] < i.b2 + 3,
+    }
+
+    def inputs(self, S):
+        plus, L, a, b = S.const("plus"), S.const("L"), S.const("a"), S.const("b")
+        s, e = 10, 10 + L
+        cds = S.new(CDS, [s], [e], S.enum_const(STRAND, "PLUS" if plus else "MINUS"), [S.enum_const(FRAME, "ZERO")])
+        return NS(cds=cds, plus=plus, L=L, s=s, e=e, a=a, b=b, a2=max(a, s), b2=min(b, e))
+
+    def ground(self):
+        for plus in (True, False):
+            for L in (9, 10, 11):
+                for a in range(9, 10 + L):
+                    for b in range(a + 1, 12 + L):
+                        yield dict(plus=plus, L=L, a=a, b=b)
+
+    def observe(self, r):
+        return list(r)
+
+
+CASES.append(ExpandToCodons())
